@@ -115,16 +115,18 @@ func (f *Fosite) WriteRevocationResponse(ctx context.Context, rw http.ResponseWr
 
 		rw.WriteHeader(ErrInvalidClient.CodeField)
 		_, _ = rw.Write(js)
-	} else if errors.Is(err, ErrUnauthorizedClient) || errors.Is(err, ErrTemporarilyUnavailable) {
-		// The token was not revoked: it belongs to another client, or the storage failed and the token may still
-		// exist (https://tools.ietf.org/html/rfc7009#section-2.2.1). Answering 200 would tell the client otherwise.
-		rfcErr := ErrUnauthorizedClient
-		if errors.Is(err, ErrTemporarilyUnavailable) {
-			rfcErr = ErrTemporarilyUnavailable
-		}
+	} else if errors.Is(err, ErrNotFound) || errors.Is(err, ErrInactiveToken) {
+		// An invalid token: 200 OK
+		rw.WriteHeader(http.StatusOK)
+	} else {
+		// The token was not revoked: it belongs to another client (unauthorized_client), the storage failed and the
+		// token may still exist (temporarily_unavailable, https://tools.ietf.org/html/rfc7009#section-2.2.1), or the
+		// client could not be authenticated for another reason (a replayed assertion, ...). Answering 200 would
+		// tell the client otherwise.
+		rfcErr := ErrorToRFC6749Error(err)
 		rw.Header().Set("Content-Type", "application/json;charset=UTF-8")
 
-		js, err := json.Marshal(rfcErr)
+		js, err := json.Marshal(&RFC6749Error{ErrorField: rfcErr.ErrorField, DescriptionField: rfcErr.DescriptionField, CodeField: rfcErr.CodeField})
 		if err != nil {
 			http.Error(rw, fmt.Sprintf(`{"error": "%s"}`, err.Error()), http.StatusInternalServerError)
 			return
@@ -132,8 +134,5 @@ func (f *Fosite) WriteRevocationResponse(ctx context.Context, rw http.ResponseWr
 
 		rw.WriteHeader(rfcErr.CodeField)
 		_, _ = rw.Write(js)
-	} else {
-		// 200 OK
-		rw.WriteHeader(http.StatusOK)
 	}
 }
